@@ -60,6 +60,59 @@ def analyse(cfg):
     if f is None:
         return None
     problems = []
+    # locals whose value becomes the function's result through plain moves (what a desugared combinator / a spliced helper leaves)
+    rc = {0}
+    grew = True
+    while grew:
+        grew = False
+        for b2, i2, st2 in f.stmts():
+            if st2["k"] == "assign" and not st2["dst"]["p"] and st2["dst"]["l"] in rc and st2["rv"]["k"] == "use" and \
+                    st2["rv"]["op"].get("k") in ("copy", "move") and not st2["rv"]["op"]["place"]["p"] and st2["rv"]["op"]["place"]["l"] not in rc:
+                rc.add(st2["rv"]["op"]["place"]["l"])
+                grew = True
+    # (a local that holds the result of another call - the sub-message's own outcome - is not a carrier: handing it on
+    # unchanged is an outcome of its own, reported where it is moved)
+    for l0 in list(rc):
+        if l0 != 0 and any(kind0 == "call" and x0["callee"]["key"] != REPLY and x0["callee"].get("trait") != "std::ops::FromResidual"
+                           for kind0, db0, di0, x0 in P.defs(f).get(l0, [])):
+            rc.discard(l0)
+
+    def rebuilt(pay):
+        """`AppResponse { events: E, data: D }` made from the sub-message's response r instead of r updated in place: the same
+        facts as events - what the data is set to, what is appended to r's events - or None when it is not built from r"""
+        from vlib import pipeline
+        b = peel(pay)
+        if not (b[0] == "agg" and b[1].startswith("executor::AppResponse")):
+            return None
+        dd = dict(b[2])
+        ev, dv = dd.get("events"), peel(dd.get("data", ("?",)))
+        if ev is None:
+            return None
+        pe = peel(ev)
+        out = []
+        if pe[0] == "field" and pe[2] == "events" and _is_ok_outcome(pe[1]):
+            pass        # r's own events, nothing appended
+        else:
+            cs = pipeline.contents(P, F, f, ev)
+            if not cs or not (cs[0].kind == "all-of" and peel(cs[0].src)[0] == "field" and peel(cs[0].src)[2] == "events" and _is_ok_outcome(peel(cs[0].src)[1])
+                              and not cs[0].conds and not cs[0].adapters):
+                return None
+            for c in cs[1:]:
+                srcp = peel(c.src) if c.src is not None else ("?",)
+                if c.kind == "all-of" and not c.conds and not c.adapters and srcp[0] == "field" and srcp[2] == "events" and \
+                        _base(srcp[1])[0] == "ok" and _is_reply_call(_base(srcp[1])[1]):
+                    out.append(("extend-events", "chain", "reply-events"))
+                else:
+                    out.append(("extend-events", "chain", "other:" + (fmt(c.src)[:60] if c.src is not None else c.kind)))
+        if dv[0] == "agg" and dv[1].endswith("Option::None"):
+            out.append(("set", "r.data", "None"))
+        elif dv[0] == "field" and dv[2] == "data" and _base(dv[1])[0] == "ok" and _is_reply_call(_base(dv[1])[1]):
+            out.append(("set", "r.data", "reply.data"))
+        elif dv[0] == "field" and dv[2] == "data" and _is_ok_outcome(dv[1]):
+            pass        # r's own data kept
+        else:
+            out.append(("set", "r.data", "other:" + fmt(dv)[:80]))
+        return out
 
     def classify(fn, bid, t):
         o = P.place(fn, t["discr_of"], (bid, "t"))
@@ -78,10 +131,10 @@ def analyse(cfg):
             evs = None
             if c["key"] == REPLY:
                 evs = ("reply", bid)
-                if item["dst"]["l"] == 0 and not item["dst"]["p"]:
+                if item["dst"]["l"] in rc and not item["dst"]["p"]:
                     return ("reply+ret", bid)
                 return evs
-            if item["dst"]["l"] == 0 and not item["dst"]["p"]:
+            if item["dst"]["l"] in rc and not item["dst"]["p"]:
                 args = P.call_args(fn, item, bid)
                 if c.get("trait") == "std::ops::FromResidual" and args:
                     a = _base(args[0])
@@ -116,18 +169,32 @@ def analyse(cfg):
         if item["k"] != "assign":
             return None
         dst = item["dst"]
-        if dst["l"] == 0 and not dst["p"]:
+        if dst["l"] in rc and not dst["p"]:
+            rv0 = item["rv"]
+            if rv0["k"] == "use" and rv0["op"].get("k") in ("copy", "move") and not rv0["op"]["place"]["p"] and rv0["op"]["place"]["l"] in rc:
+                return None         # the move that carries a result already reported
             o = P.rvalue(fn, item["rv"], site)
             b = peel(o)
             if b[0] == "agg" and b[1].endswith("Result::Ok"):
                 pay = b[2][0][1]
-                return ("ret", "Ok(r)" if _is_ok_outcome(pay) else "Ok(other:%s)" % fmt(pay)[:80])
+                if _is_ok_outcome(pay):
+                    return ("ret", "Ok(r)")
+                rb = rebuilt(pay)
+                if rb is not None:
+                    return ("multi", tuple(rb) + (("ret", "Ok(r)"),))
+                return ("ret", "Ok(other:%s)" % fmt(pay)[:80])
             if b[0] == "agg" and b[1].endswith("Result::Err"):
                 pay = b[2][0][1]
+                pb = _base(pay)
+                if pb[0] == "err" and _is_reply_call(pb[1]):
+                    return ("ret", "propagate-reply-error")        # `Err(e) => Err(e)` on the reply's result is `?`
                 return ("ret", "Err(e)" if _is_err_outcome(pay) else "Err(other:%s)" % fmt(pay)[:80])
             if b[0] == "call" and b[1].endswith("FromResidual::from_residual") and b[4] and b[4][1] == "agg":
                 # `Err(e)` rebuilt from the error payload of a Result (normalised by the provenance engine)
                 pay = b[2][0]
+                pb = _base(pay)
+                if pb[0] == "err" and _is_reply_call(pb[1]):
+                    return ("ret", "propagate-reply-error")        # `Err(e) => Err(e)` on the reply's result is `?`
                 return ("ret", "Err(e)" if _is_err_outcome(pay) else "Err(other:%s)" % fmt(pay)[:80])
             if _is_outcome(b):
                 return ("ret", "outcome-itself")
@@ -166,7 +233,7 @@ def analyse(cfg):
         for ro in REPLY_ON:
             w = Walker(f, {"outcome": oc, "reply_on": ro}, watch, classify, decide=decide)
             try:
-                table[(oc, ro)] = _merge_loops(w.run())
+                table[(oc, ro)] = _merge_loops({_flatten(sq) for sq in w.run()})
             except RuntimeError as e:
                 problems.append(str(e))
                 table[(oc, ro)] = set()
@@ -188,6 +255,16 @@ def analyse(cfg):
     res = {"fn": f, "table": table, "problems": problems, "switches": seen}
     cfg._submsg = res
     return res
+
+
+def _flatten(seq):
+    out = []
+    for e in seq:
+        if isinstance(e, tuple) and e and e[0] == "multi":
+            out.extend(e[1])
+        else:
+            out.append(e)
+    return tuple(out)
 
 
 def _merge_loops(seqs):
